@@ -290,6 +290,27 @@ fn stable_phase(start: &F, words: &[u32], seen: &mut HashSet<u128>, deadline: st
                 q.push_back((c, a2));
             }
         }
+        // Between two probe rounds news about a member that stays active may
+        // arrive (somebody suspected it and it refuted: incarnation 0 -> 1):
+        // the member set is the same, the rotation must not notice.
+        if n <= 3 {
+            for m in view.members.iter().filter(|m| m.state() == State::Alive && m.incarnation() == 0) {
+                for (_, o, c) in all_runs(&f, &Ev::Apply(vec![Member::new(*m.id(), 1, State::Alive)], false), words).into_iter().take(8) {
+                    res.transitions += 1;
+                    if o.panic.is_some() || !o.res.is_ok() {
+                        return Err(format!("apply_many failed in a stable phase: {:?} {:?}", o.res, o.panic));
+                    }
+                    let v2 = View::of(&c);
+                    if v2.active.len() != n || v2.members.len() != view.members.len() {
+                        return Err("the member set changed during a stable phase (refutation)".into());
+                    }
+                    if seen.insert(hash128(&key_of(&c, &ages))) {
+                        res.states += 1;
+                        q.push_back((c, ages.clone()));
+                    }
+                }
+            }
+        }
         // Between two probe rounds the user (or a periodic task) may gossip:
         // the member set stays what it is, so the rotation must not notice.
         // Bounded to small memberships and the first 8 RNG answers per call
